@@ -116,19 +116,22 @@ def ai_payload(w, repo, session, f):
                        "agent_name": "tool", "model": "m", "conversation_id": session})
 
 
-def overlapping_windows(seq, journal="checkpoints", domains=None):
-    """True when two processes that share a journal (same work tree: linked worktrees have private working logs) were both inside
-    their journal read..exit window at some moment of the schedule."""
-    # a process's window opens when it is released from its first journal read and closes when it exits (the post-commit consumer
-    # archives the journal after its last sync point, so nothing earlier than exit is a safe end)
+def overlapping_windows(seq, journal="checkpoints", domains=None, is_git=None):
+    """Finding D8 by call site. True when two processes that share a journal (same work tree: linked worktrees have private working
+    logs) were inside their lost-update windows at the same moment of the schedule.  The windows are those of the unchanged code:
+    for an agent report, from entering `append_checkpoint` (sync point `checkpoints.append`, immediately followed by the read it
+    appends to) to the release of its `checkpoints.write`; for a git command (the post-commit consumer reads the journal, writes
+    the note and archives the log), from its first journal read to its exit.  A lost report whose schedule shows no such overlap -
+    for instance because a report was appended to a journal snapshot read *before* `append_checkpoint` - is not this finding."""
     inside = set()
     for who, point in seq:
-        if point == journal + ".read":
+        git = bool(is_git[who]) if is_git else False
+        if (point == journal + ".append" and not git) or (point == journal + ".read" and git):
             inside.add(who)
             doms = [domains[i] if domains else 0 for i in inside]
             if len(doms) != len(set(doms)):
                 return True
-        elif point == "exit":
+        elif point == "exit" or (point == journal + ".write" and not git):
             inside.discard(who)
     return False
 
@@ -246,7 +249,7 @@ def scenario(kind, choices, serial=None):
             except (ValueError, KeyError):
                 pass
             outcome["%s:%s" % (os.path.basename(path), text)] = who
-        return dict(viol=viol, seq=seq, opts=opts, inconclusive=None, outcome=outcome, stale=stale, domains=[cwd for _, cwd, _ in cmds])
+        return dict(viol=viol, seq=seq, opts=opts, inconclusive=None, outcome=outcome, stale=stale, domains=[cwd for _, cwd, _ in cmds], is_git=[g for _, _, g in cmds])
     finally:
         c.destroy()
 
@@ -272,7 +275,7 @@ def run_case(case):
     d8 = d45 = 0
     if r.get("inconclusive") is None and r.get("outcome") not in ser:
         v = dict(kind="C11/not-serializable", pair=kind, outcome=r["outcome"], serial_outcomes=ser, schedule=r["seq"])
-        if overlapping_windows(r["seq"], domains=r.get("domains")):
+        if overlapping_windows(r["seq"], domains=r.get("domains"), is_git=r.get("is_git")):
             d8 = 1          # open finding D8, identified by call site: two journal read..consume windows overlap
         elif r.get("stale"):
             d45 = 1         # open finding D45: a checkpoint process resolved its base commit before a commit landed and wrote to the stale log
